@@ -84,6 +84,9 @@ func DeleteBeforeAssociations(db *gorm.DB) {
 					table          = rel.JoinTable.Table
 					tx             = db.Session(&gorm.Session{NewDB: true}).Model(modelValue).Table(table)
 				)
+				if db.Statement.Unscoped {
+					tx = tx.Unscoped()
+				}
 
 				for _, ref := range rel.References {
 					if ref.OwnPrimaryKey {
